@@ -175,6 +175,11 @@ let handle = function
       | _ -> failwith "sop" in
     let m = List.fold_left (fun m o -> sstep m (op_of o)) [(O, blank)] ops in
     L (List.map (fun (i, s) -> L [A (string_of_int (int_of_nat i)); fe_sexp s]) m)
+  | L [A "str_to_int"; A k; A digs] ->
+    let ds = List.init (String.length digs) (fun i -> cz_of_zz (ZZ.of_int (Char.code digs.[i] - 48))) in
+    a_z (str_to_int (nat_of_int (int_of_string k)) ds)
+  | L [A "int_to_str"; A k; v] ->
+    A (String.concat "" (List.map string_of_cz (int_to_str (nat_of_int (int_of_string k)) (z_a v))))
   | L [A "fe_split_fe"; st] -> L (List.map fe_sexp (split_fe (fe_of st)))
   | L [A "meta"; e] ->
     let x = expr_of e in
